@@ -291,3 +291,105 @@ def enum_faults():
                 for seed in (1, 2, 3):
                     out.append(gen_fault(random.Random(seed * 7919 + hash(f) % 1000), f, tail))
     return out
+
+
+def gen_burst(rng):
+    """C07 family: bursts of same-deadline events from one origin to one small mailbox (the sequential
+    task of the group blocks on the full mailbox), one-shot / keyed / periodic mixed, other deadlines in
+    between; and bursts scheduled by one handler invocation (origin: the model)."""
+    cap = rng.choice([1, 1, 2, 3, 16])
+    d = rng.choice(DELAYS)
+    burst = [("sch", ("r", d), 0, ("ip", 100 * (k + 1)), rng.choice([None, None, k % 4]), None) for k in range(rng.randint(2, 5))]
+    m = {"cap": cap, "handlers": [[], burst, [("sch", ("r", rng.choice(DELAYS)), 0, ("ip", 900), 0, 10)], [("can", 0)]], "outs": []}
+    case = {"models": [m], "sinks": [], "mode": "seq", "tags": {"burst"}, "t0": 0, "clock": []}
+    cmds, val, horizon = [], 0, 0
+    for _ in range(rng.randint(2, 5)):
+        t = horizon + 10 * rng.randint(1, 3)
+        for _ in range(rng.randint(2, 8)):
+            val += 1
+            r = rng.random()
+            cmds.append(("se", ("a", t if r < 0.8 else t + 10), 0, rng.choice([0, 0, 0, 1, 3]), val,
+                         rng.choice([None, None, rng.randrange(4)]), rng.choice([None, None, None, 10, 20])))
+        if rng.random() < 0.3:
+            cmds.append(("cn", rng.randrange(4)))
+        if rng.random() < 0.5:
+            cmds.append(("st",)); horizon += 10
+        else:
+            cmds.append(("su", ("a", t))); horizon = t
+    cmds += [("su", ("a", horizon + 40))]
+    case["cmds"] = cmds
+    return case
+
+
+def gen_cancel(rng):
+    """C09 family: keyed one-shot / periodic events cancelled before the step, by an earlier event of
+    the same model at the same time (same origin, so the order is fixed), after firing, through the
+    driver, with step and step_until."""
+    d = rng.choice(DELAYS)
+    per = rng.choice([None, 10, 20])
+    # input 1: schedule a canceller (input 3) and then a keyed victim (input 0, slot 0) for the same time
+    first_cancel = rng.random() < 0.7
+    pair = [("sch", ("r", d), 3, ("c", 7000), None, None), ("sch", ("r", d), 0, ("ip", 500), 0, per)]
+    if not first_cancel:
+        pair.reverse()
+    h2 = [("sch", ("r", rng.choice(DELAYS)), 0, ("ip", 300), rng.randrange(2), rng.choice([None, 10]))]
+    m = {"cap": rng.choice([2, 4, 16]), "handlers": [[], pair, h2, [("can", 0)]], "outs": []}
+    case = {"models": [m], "sinks": [], "mode": "seq", "tags": {"cancel"}, "t0": 0, "clock": [],
+            "meta": {"d": d, "first_cancel": first_cancel}}
+    cmds, val, horizon = [], 0, 0
+    for _ in range(rng.randint(4, 12)):
+        r = rng.random()
+        val += 1
+        if r < 0.45:
+            t = horizon + 10 * rng.randint(1, 3)
+            cmds.append(("se", ("a", t), 0, rng.choice([0, 0, 1, 1, 2, 3]), val, rng.choice([None, 0, 1, 2, 3]),
+                         rng.choice([None, None, 10, 30])))
+        elif r < 0.65:
+            cmds.append(("cn", rng.randrange(4)))
+        elif r < 0.85:
+            cmds.append(("st",)); horizon += 10
+        else:
+            tgt = horizon + rng.choice([10, 20, 30])
+            cmds.append(("su", ("a", tgt))); horizon = tgt
+    cmds += [("su", ("a", horizon + 30))]
+    case["cmds"] = cmds
+    return case
+
+
+def gen_periodic(rng):
+    """C10 family: several periodic series with commensurable periods down to 1 ns, coincidences,
+    cancel points at fixed times; returns (setup commands, horizon, cancel list)."""
+    m = {"cap": rng.choice([1, 1, 2, 16]), "handlers": [[], [], [], []], "outs": []}
+    setup, cancels = [], []
+    for k in range(rng.randint(1, 4)):
+        p = rng.choice([1, 2, 3, 4, 6, 10])
+        t0 = rng.randint(1, 12)
+        slot = k if rng.random() < 0.5 else None
+        setup.append(("se", ("a", t0), 0, k, 100 + k, slot, p))
+        if slot is not None and rng.random() < 0.6:
+            cancels.append((rng.randint(2, 30), slot))
+    if rng.random() < 0.5:
+        setup.append(("se", ("a", rng.randint(1, 30)), 0, 3, 999, None, None))
+    return m, setup, sorted(cancels), rng.randint(15, 40)
+
+
+def partition_cmds(rng, horizon, cancels, kind):
+    """cuts [0, horizon] into stepping commands; a cancel at time c is issued once now >= c... to be
+    partition independent, cancels are issued right after a step_until(c) in every partition."""
+    cmds, now = [], 0
+    stops = sorted(set([c for c, _ in cancels] + [horizon]))
+    for stop in stops:
+        # reach `stop` with an arbitrary mix, always finishing with step_until(stop)
+        while now < stop:
+            if kind == "big":
+                nxt = stop
+            elif kind == "unit":
+                nxt = now + 1
+            else:
+                nxt = min(stop, now + rng.randint(1, 7))
+            cmds.append(("su", ("a", nxt)) if rng.random() < 0.7 or kind != "mixed" else ("su", ("r", nxt - now)))
+            now = nxt
+        for c, slot in cancels:
+            if c == stop:
+                cmds.append(("cn", slot))
+    return cmds
